@@ -673,3 +673,42 @@ def c17(ctx):
     ctx.cov["rule"] = ("one evaluation = one round: 2..8 goroutines x 6..15 operations (Garble/Eval-check/Release/double Release/Compute) on one "
                        "fresh shared circuit under GOMAXPROCS 1, 2 or 16; every round is non-trivial")
     ctx.check_drift()
+
+
+# ---------------------------------------------------------------------- C18
+@prop("C18")
+def c18(ctx):
+    thorough = ctx.tier == "thorough"
+    ctx.build()
+    ctx.assumptions += ["SHA-256 itself comes from Go's crypto/sha256 (the digest is an uninterpreted function of a xor b in the spec)",
+                        "a mutated message that still parses may be accepted if the run then ends in an error or the right digest; "
+                        "non-canonical acceptance of mutated bytes is recorded, not counted as a violation"]
+    ctx.tlc_expect_ok("Sha2pc", "Sha2pc_mc.cfg", name="sha2pc-mc", timeout=1500)
+    g = ctx.tlc("Sha2pcGen", "Sha2pc_gen.cfg", mode="gen", workers=1, name="sha2pc-gen", timeout=1500)
+    if g["status"] != "ok" or not g["cases"]:
+        raise Broken("Sha2pcGen failed: %s\n%s" % (g["status"], g["out"][-2000:]))
+    allc = g["cases"]
+    ctx.cov["behaviours_enumerated"] = len(allc)
+    res_all = []
+    plan = [("P-256", allc if thorough else sample_cases(allc, 60, ctx.seed))]
+    plan.append(("P-224,P-384,P-521", sample_cases(allc, 240 if thorough else 18, ctx.seed + 1)))
+    for i, (curves, cases) in enumerate(plan):
+        cf = os.path.join(ctx.tmp, "c18cases%d.ndjson" % i)
+        write_ndjson(cf, cases)
+        rf = os.path.join(ctx.tmp, "c18res%d.ndjson" % i)
+        ctx.run_vh(["c18", "replay", cf, rf, curves], timeout=3400)
+        n = ctx.absorb(rf)
+        ctx.cov["traces_validated_against_impl"] += n
+    mf = os.path.join(ctx.tmp, "c18mut.ndjson")
+    ctx.run_vh(["c18", "mutate", mf, 3000 if thorough else 300], timeout=3000)
+    ctx.absorb(mf)
+    jf = os.path.join(ctx.tmp, "c18inter.ndjson")
+    ctx.run_vh(["c18", "interleave", jf, 20 if thorough else 3], timeout=3000)
+    ctx.absorb(jf)
+    zf = os.path.join(ctx.tmp, "c18sizes.ndjson")
+    ctx.run_vh(["c18", "sizes", zf], timeout=3000)
+    ctx.absorb(zf)
+    ctx.cov["exhaustive"] = bool(thorough)
+    ctx.cov["rule"] = ("one evaluation = one behaviour of Sha2pc.tla (pattern of restarts, re-encodings and at most one foreign/malformed "
+                       "message) run on the real rounds with all messages as bytes, or one mutated message; non-trivial = has optional steps")
+    ctx.check_drift()
